@@ -537,4 +537,72 @@ theorem armed_returns (sched : List Actor) (s : St) (o : Op) (ha : Armed s)
         · exact ⟨s2, .write, by rw [hr]⟩
         · exact ⟨s2, e, by rw [hr]⟩
 
+
+/-! ## write errors -/
+
+/-- the transport stops accepting bytes before the operation has written all it has to write -/
+def WStarved (s : St) (o : Op) : Prop := ∃ w, s.wleft = some w ∧ w < wneed o.prog
+
+theorem rstep_wstarved (s : St) (o : Op) (h : WStarved s o) : WStarved (rstep s) o := by
+  unfold WStarved at *
+  rw [rstep_wleft]; exact h
+
+theorem ostep_wstarved (s s' : St) (o o' : Op) (hs : ostep s o = (s', .inl o'))
+    (h : WStarved s o) : WStarved s' o' := by
+  obtain ⟨w, hw, hlt⟩ := h
+  rcases ostep_inl s s' o o' hs with ⟨b, react, rest, hp, hwr, ho⟩ | ⟨P, rest, hp, hr, ho⟩ |
+    ⟨P, rest, c, hp, hr, hP, ho⟩ | ⟨P, rest, c, hp, hr, hP, ho⟩
+  · obtain ⟨_, _, _, _, _, _, h7⟩ := chWrite_ok s s' b react hwr
+    obtain ⟨hle, hw'⟩ := h7 w hw
+    subst ho
+    rw [hp] at hlt
+    simp only [wneed] at hlt
+    exact ⟨w - b.length, hw', by simp only; omega⟩
+  · obtain ⟨h1, _, _⟩ := chRead_nil s s' hr
+    subst h1; subst ho
+    exact ⟨w, hw, hlt⟩
+  · obtain ⟨_, _, hs'⟩ := chRead_data s s' c hr
+    subst ho
+    rw [hp] at hlt
+    exact ⟨w, by rw [hs']; exact hw, by simpa [wneed] using hlt⟩
+  · obtain ⟨_, _, hs'⟩ := chRead_data s s' c hr
+    subst ho
+    exact ⟨w, by rw [hs']; exact hw, hlt⟩
+
+theorem wstarved_prog_ne (s : St) (o : Op) (h : WStarved s o) : o.prog ≠ [] := by
+  intro hp
+  obtain ⟨w, _, hlt⟩ := h
+  rw [hp] at hlt
+  simp [wneed] at hlt
+
+theorem wstarved_never_ok (sched : List Actor) (s s' : St) (o : Op) (outs : List Bytes)
+    (h : WStarved s o) : run sched s o ≠ (s', .inr (.ok outs)) := by
+  induction sched generalizing s o with
+  | nil => simp [run]
+  | cons a t ih =>
+    cases a with
+    | rdr => simp only [run]; exact ih _ _ (rstep_wstarved s o h)
+    | op =>
+      simp only [run]
+      rcases hs : ostep s o with ⟨s2, o2 | r⟩
+      · simp only; exact ih _ _ (ostep_wstarved s s2 o o2 hs h)
+      · simp only
+        intro heq
+        obtain ⟨h1, h2⟩ := Prod.mk.inj heq
+        have h3 : r = .ok outs := Sum.inr.inj h2
+        subst h3
+        rcases ostep_inr s s2 o _ hs with ⟨hp, _, _⟩ | ⟨_, _, _, _, _, hr⟩ | ⟨_, _, _, _, _, hr⟩
+        · exact wstarved_prog_ne s o h hp
+        · simp at hr
+        · simp at hr
+
+theorem chWrite_fail_sticky (s s' : St) (b : Bytes) (react : List Bytes)
+    (h : chWrite s b react = (false, s')) : s'.wleft = some 0 := by
+  unfold chWrite at h
+  split at h
+  · simp at h
+  · split at h
+    · simp at h
+    · simp at h; rw [← h]
+
 end Scrapli.Loss
